@@ -2,6 +2,14 @@ CONSTANTS NPts = 8
           NDays = 2
           NSlots = 4
           StitchCfg <- StitchBig
+          NDup = 3
+          MaxMult = 3
+          NDupSlots = 2
+          ZoneCfg <- ZonesBig
+          NZE = 4
+          NZ2 = 1
+          StitchDupCfg <- DupStitchBig
+          StitchNaNCfg <- NaNStitchBig
 INIT Init
 NEXT Next
 PROPERTY ArgsFrame
@@ -12,7 +20,12 @@ INVARIANT TwoSided
 INVARIANT Brackets
 INVARIANT Partition
 INVARIANT WrapComplement
+INVARIANT DupTogether
+INVARIANT SameTodTogether
+INVARIANT LocalClock
 INVARIANT WrapMechDefault
+INVARIANT ElapsedOrdinary
+INVARIANT TrimOneUnique
 INVARIANT StitchOnce
 INVARIANT StitchN1
 INVARIANT StitchColumn
@@ -20,3 +33,6 @@ INVARIANT StitchRows
 INVARIANT StitchReverse
 INVARIANT RoundTrip
 INVARIANT Recovers
+INVARIANT StitchValueBlind
+INVARIANT StitchDupLaw
+INVARIANT StitchDupStrict
